@@ -500,6 +500,14 @@ func runC09(r *core.Run) {
 			s.changes[1+r.Intn(300, "pct-change-at")] = true
 		}
 	}
+	// (shape 2) the bucket may also hold the OTHER firmware's own endorsement under its measurements:
+	// a report of that firmware fetched from the bucket is then endorsed by its own object
+	ownBucket := shape == 2 && r.Bool("other-image-has-its-own-bucket-object")
+	if ownBucket {
+		for _, m := range otherIs.Golden.SevSnp.Measurements {
+			net.Objects[SnpURL(m)] = otherIs.Bytes
+		}
+	}
 	tasks := make([]*c09Task, nTasks)
 	for i := range tasks {
 		t := &c09Task{source: r.Intn(3, "source")}
@@ -518,6 +526,12 @@ func runC09(r *core.Run) {
 		default:
 			c := []uint32{16, 24, 32}[r.Intn(3, "else-count")]
 			t.meas, t.measClass = is.Golden.SevSnp.Measurements[c], "endorsed-other-count"
+		}
+		if ownBucket && t.source == 1 && t.measClass == "unendorsed" {
+			t.measClass = "endorsed-by-own-bucket-object"
+			if named != 0 {
+				t.meas = otherIs.Golden.SevSnp.Measurements[named]
+			}
 		}
 		t.blob, t.blobClass = is.Bytes, "genuine"
 		if t.source == 0 {
@@ -561,12 +575,23 @@ func runC09(r *core.Run) {
 		}
 		return o
 	}
+	// the VCEK chain is per machine: a verifier may hold ONE certificate-chain message and attach it
+	// to every report of that host (drawn per run); validating must not write into it
+	hostChainInUse := false // the isolation baseline gives every call a chain message of its own
+	var hostChain *spb.CertificateChain
+	if r.Bool("shared-certificate-chain") {
+		hostChain = SnpAttestation(nil, nil).CertificateChain
+	}
 	call := func(t *c09Task, f func(*spb.Attestation, []byte) error, o *verify.Options, so *gcetcbendorsement.SevValidateOptions) error {
 		if shape == 2 {
 			if t.source == 0 {
 				return gcetcbendorsement.SevValidate(ctx, SnpAttestation(t.meas, t.blob), so)
 			}
-			return gcetcbendorsement.SevValidate(ctx, SnpAttestation(t.meas, nil), so)
+			at := SnpAttestation(t.meas, nil)
+			if hostChain != nil && hostChainInUse {
+				at.CertificateChain = hostChain
+			}
+			return gcetcbendorsement.SevValidate(ctx, at, so)
 		}
 		switch t.source {
 		case 0:
@@ -595,6 +620,7 @@ func runC09(r *core.Run) {
 		t.want = err == nil
 	}
 	// ---- shared values ----
+	hostChainInUse = true
 	sharedOpts := newOpts()
 	sharedSev := newSevOpts()
 	// validators of two firmware families built from ONE options value, in a drawn order
@@ -749,7 +775,9 @@ func runC09(r *core.Run) {
 	// ---- a later isolated call through the shared value must behave like a fresh one ----
 	probe := &c09Task{meas: otherIs.Golden.SevSnp.Measurements[2], measClass: "unendorsed", source: r.Intn(2, "probe-source")}
 	fresh, freshSev := newOpts(), newSevOpts()
+	hostChainInUse = false // the reference call gets a chain message of its own
 	wantErr := call(probe, verify.SNPValidateFunc(fresh), fresh, freshSev)
+	hostChainInUse = true
 	gotErr := call(probe, sharedF, sharedOpts, sharedSev)
 	if (wantErr == nil) != (gotErr == nil) {
 		r.Fail("result-differs-from-isolation", fmt.Sprintf("later-call/shared-%d", shape), "%s: after the calls above, an isolated call through the shared value gives accept=%v, a fresh value gives accept=%v", where, gotErr == nil, wantErr == nil)
@@ -761,7 +789,9 @@ func runC09(r *core.Run) {
 			good.meas = is.Golden.SevSnp.Measurements[named]
 		}
 		f3, fs3 := newOpts(), newSevOpts()
+		hostChainInUse = false
 		w := call(good, verify.SNPValidateFunc(f3), f3, fs3)
+		hostChainInUse = true
 		g := call(good, sharedF, sharedOpts, sharedSev)
 		if (w == nil) != (g == nil) {
 			r.Fail("result-differs-from-isolation", fmt.Sprintf("later-fetch/shared-%d", shape), "%s: after the calls above, an endorsed report fetched through the shared value gives accept=%v (%v), a fresh value gives accept=%v", where, g == nil, g, w == nil)
@@ -774,7 +804,9 @@ func runC09(r *core.Run) {
 			bad.meas = is.Golden.SevSnp.Measurements[named]
 		}
 		f2, fs2 := newOpts(), newSevOpts()
+		hostChainInUse = false
 		w := call(bad, verify.SNPValidateFunc(f2), f2, fs2)
+		hostChainInUse = true
 		g := call(bad, sharedF, sharedOpts, sharedSev)
 		if (w == nil) != (g == nil) {
 			r.Fail("result-differs-from-isolation", "later-call/forged-blob/shared-2", "%s: after the calls above, an attestation carrying a forged endorsement gives accept=%v through the shared options, accept=%v through fresh ones", where, g == nil, w == nil)
